@@ -222,6 +222,8 @@ func c02Scenarios(quick bool) []*sched.Scenario {
 		{writers: [][]string{{"json", "str"}}, readers: []int{2}, tee: true},
 		{writers: [][]string{{}, {"str"}}, readers: []int{1, 1}},
 		{writers: [][]string{{"null"}, {}}, readers: []int{2}, forceClose: true},
+		{writers: [][]string{{"null", "json"}}, readers: []int{1}, tee: true},
+		{writers: [][]string{{"", "str"}, {"json"}}, readers: []int{1}, tee: true},
 	}
 	if !quick {
 		types := [][]string{{}, {""}, {"null"}, {"json"}, {"str"}, {"", "json"}, {"json", "str"}}
